@@ -350,11 +350,17 @@ def check_cli(mtjs, gramtype, markov, fmt, lig):
                     'detail': '%s [treebank %s, %s %r -> %s]' % (detail, [model.mt_str(m.root, m.toks) for m in mts],
                                                               gramtype, markov, fmt),
                     'what': 'treetools grammar: ' + kind})
-    src = os.path.join(scratch(), 'c09.export')
+    srcfmt = 'export'
+    if not any(model.mt_tree_gap_degree(m.root) > 0 for m in mts) and lig:
+        srcfmt = 'brackets'
+    elif markov:
+        srcfmt = 'tigerxml'
+    src = os.path.join(scratch(), 'c09.' + srcfmt)
     with open(src, 'w', encoding='utf-8') as f:
-        f.write(codecs.encode_export(mts))
+        f.write({'export': codecs.encode_export, 'brackets': codecs.encode_brackets,
+                 'tigerxml': codecs.encode_tigerxml}[srcfmt](mts))
     dest = os.path.join(scratch(), 'c09out')
-    argv = ['grammar', src, dest, gramtype, '--dest-format', fmt]
+    argv = ['grammar', src, dest, gramtype, '--dest-format', fmt, '--src-format', srcfmt]
     if markov:
         argv += ['--markov'] + markov
     if lig:
